@@ -73,6 +73,7 @@ class World:
         self.scope_classes = set()
         self.opaque_fstrings = True
         self.force_inline = set()
+        self.call_lemmas = {}           # (caller qual, callee qual) -> (s0, s, v): ghost frame facts assumed before the call
 
     def add(self, con):
         self.contracts[con.qual] = con
